@@ -424,11 +424,15 @@ func mutateHeadersByRules(headers, rules http.Header, repl httpserver.Replacer, 
 		for _, ruleValue := range ruleValues {
 			// Replace variables in replacement string
 			replacement := repl.Replace(ruleValue.to)
-			original := headers.Get(ruleField)
-			if len(replacement) > 0 && len(original) > 0 {
-				// Replace matches in original string with replacement string
-				replaced := ruleValue.regexp.ReplaceAllString(original, replacement)
-				headers.Set(ruleField, replaced)
+			if len(replacement) == 0 {
+				continue
+			}
+			// Replace matches in every value of the field (Set-Cookie and
+			// friends come in several lines) with the replacement string
+			for i, original := range headers[http.CanonicalHeaderKey(ruleField)] {
+				if len(original) > 0 {
+					headers[http.CanonicalHeaderKey(ruleField)][i] = ruleValue.regexp.ReplaceAllString(original, replacement)
+				}
 			}
 		}
 	}
